@@ -10,7 +10,8 @@ TECHNIQUE = "bounded-exhaustive enumeration of layouts + Hypothesis random layou
 RULE = ("exhaustive: all layouts with S servers (every read-only subset leaving >=1 writable), H shares and every existing-share "
         "relation for the (S,H) bounds of the tier; random: up to 20 servers x 30 shares. Each layout is evaluated under 2 server "
         "labelings (changes set/dict iteration and sort order). Non-trivial = >=1 read-only server holding a share and >=1 writable "
-        "server holding a share; distinct by (W,R,H,relation).")
+        "server holding a share; distinct by (W,R,H,relation)."
+        ' Third family: whole uploads on the in-process grid (at most 2N servers: ok / read-only / full when announced / full only after the client connected / failing allocate), no pre-existing shares; oracle: happiness min(N, number of servers that take shares) is reachable, so the upload succeeds iff that reaches the threshold.')
 LEVEL_TEXT = ("Complete enumeration of small layouts (quick: S<=3,H<=4 and S=4,H<=3; thorough: S<=4,H<=5) and random search up to 20x30; "
               "oracle = all shares placed on known servers, read-only servers only get shares they hold, number of distinct servers equals "
               "an independently computed maximum matching of {writable x all shares} U {read-only x held shares}.")
